@@ -205,6 +205,21 @@ PROPS = {
         "level_note": VERUS_TRUST + "shims (assumed std contracts) for rsplit_once(char), rsplit_once(\"nb\"), parse::<i64>, String::from, "
                       "Option::or, rfind(char); Summary::pkgbase()/pkgversion() are proved (unit summary) to return base_of/version_of of PKGNAME exactly when both parts are non-empty.",
     },
+    "C19": {
+        "units": ["pkgpath", "pattern", "dewey", "pkgname"],
+        "always_devs": ["letter_value_is_ascii_code"],
+        "design_ref": "DESIGN.md section 8 / C19",
+        "replay": "pkgpath",
+        "level_text": "Unbounded proof on the real functions over std::path's component view: PkgPath::new / from_str succeed exactly when the "
+                      "components are [Normal, Normal] or [ParentDir, ParentDir, Normal, Normal]; the stored short path has the components "
+                      "[category, package] and the full path [.., .., category, package] for both spellings (so the two spellings give "
+                      "component-wise equal values and re-parsing either accessor succeeds: lemma_both_spellings); Depend::new succeeds exactly "
+                      "when the argument splits at ':' into two pieces, the first compiles as a Pattern (pvalid) and the second is a valid "
+                      "PkgPath, with parts equal to parsing each half; anything but two pieces is DependError::Invalid.",
+        "level_note": VERUS_TRUST + "std::path as an opaque algebra: comps() uninterpreted (normalisation of repeated/trailing slashes and '.' is std's), "
+                      "PathBuf::from, components().collect(), push of a relative path appends components, '../../' has components [.., ..]; "
+                      "Pattern::new's contract imported from unit pattern (proved in the same run); str::split(\":\") shim.",
+    },
     "C20": {
         "units": ["pkgdb"],
         "design_ref": "DESIGN.md section 8 / C20",
